@@ -83,7 +83,8 @@ pub fn gen_history(pid: &str, rng: &mut Rng, uni: &Universe, persistent: bool, s
         match pid {
             "C07" => match roll {
                 0..=19 => {
-                    let id = pick_id(rng);
+                    // mostly the documents of this history (upgrades and attempted downgrades), sometimes any id
+                    let id = if rng.chance(3, 4) { ns } else { pick_id(rng) };
                     let secret = if rng.chance(1, 2) { uni.secret_of(&id) } else { None };
                     stats.inc(if secret.is_some() { "import_write" } else { "import_read" });
                     h.push(SOp::Import { ns: id, secret });
